@@ -506,7 +506,7 @@ def _gen_step(rnd, sh, src, shadows, focus=None, strict=False):
             # (an empty selection is not what the form is for; the helpers
             # copy through Pseudo2NetCDF, which maps booleans - results of
             # comparisons - to a netCDF integer type by design)
-            if nonempty and '?' not in sh.dt.values() and not sh.dupdims:
+            if nonempty and '?' not in getattr(sh, 'dt', {}).values() and not getattr(sh, 'dupdims', False):
                 a['via'] = 'slice_dim'
     elif act == 'apply':
         nd = rnd.randint(1, min(3, len(dims)))
@@ -532,7 +532,7 @@ def _gen_step(rnd, sh, src, shadows, focus=None, strict=False):
         a['funcs'] = fs
         # the string forms reduce_dim / convolve_dim of a single function
         if len(fs) == 1 and rnd.random() < 0.35 and \
-                '?' not in sh.dt.values() and not sh.dupdims:
+                '?' not in getattr(sh, 'dt', {}).values() and not getattr(sh, 'dupdims', False):
             if fs[0]['kind'] == 'reducer':
                 a['via'] = 'reduce_dim'
             elif fs[0]['f'] in CONVDEFS:
